@@ -226,7 +226,7 @@ func zzEndToEnd(varyRequest bool) {
 	sensitive := verifrt.Bool("case-sensitive-paths")
 	httpserver.CaseSensitivePath = sensitive
 
-	paths := []string{"/a.php", "/a.php/pi", "/b.PHP", "/d/", "/t.txt", "/new.php"}
+	paths := []string{"/a.php", "/a.php/pi", "/b.PHP", "/d/", "/t.txt", "/new.php", "/b.PHP/x.php"}
 	pk, method, query, hv := 0, "GET", "q=1&r", "v"
 	var body []byte
 	lengthKnown := true
@@ -358,6 +358,8 @@ func zzEndToEnd(varyRequest bool) {
 		wantScript, wantInfo = "/a.php", "/pi"
 	case 3:
 		wantScript = "/d/index.php"
+	case 6:
+		wantScript, wantInfo = "/b.PHP", "/x.php" // split at the FIRST occurrence, whatever its letter case
 	}
 	verifrt.Assert(env["SCRIPT_NAME"] == wantScript && env["PATH_INFO"] == wantInfo && env["DOCUMENT_URI"] == wantScript, "env-script-name-and-path-info-split")
 	verifrt.Assert(env["SCRIPT_FILENAME"] == root+wantScript && env["DOCUMENT_ROOT"] == root, "env-script-filename")
